@@ -50,12 +50,10 @@ def np_labels(lab, kind):
 
 
 def kind_of(lab):
-    for v in lab:
-        if isinstance(v, str):
-            return 's'
-        if isinstance(v, float):
-            return 'f'
-        return 'i'
+    if any(isinstance(v, str) for v in lab):
+        return 's'
+    if any(isinstance(v, float) for v in lab):
+        return 'f'
     return 'i'
 
 
